@@ -581,6 +581,53 @@ Fixpoint sig_eqb (a b : list (string * string)) : bool :=
   | _, _ => false
   end.
 
+(* the global switch.  neuroml/build_time_validation.py is a docstring and ONE assignment of a bool literal to the module-level
+   name ENABLED (on by default); the helpers of neuroml/__init__.py assign / read that attribute of the module bound by
+   `from . import build_time_validation`, and add()/component_factory read it as neuroml.build_time_validation.ENABLED
+   (translators/tr_switch.py reads the real shapes, statement by statement; anything else shows up as "other: ...").
+   A plain attribute in a plain module's dictionary is one cell shared by every thread of the process: that is what the single
+   boolean `enabled` of component_factory / add / sess_run stands for. *)
+Fixpoint strl_eqb (a b : list string) : bool :=
+  match a, b with
+  | [], [] => true
+  | x :: r, y :: q => String.eqb x y && strl_eqb r q
+  | _, _ => false
+  end.
+Fixpoint named_strl_eqb (a b : list (string * list string)) : bool :=
+  match a, b with
+  | [], [] => true
+  | (n, x) :: r, (m, y) :: q => String.eqb n m && strl_eqb x y && named_strl_eqb r q
+  | _, _ => false
+  end.
+Definition modelled_switch_module : list string := ["doc"; "ENABLED = True"].
+Definition modelled_switch_helpers : list (string * list string) :=
+  [("disable_build_time_validation", ["build_time_validation.ENABLED = False"]);
+   ("enable_build_time_validation", ["build_time_validation.ENABLED = True"]);
+   ("get_build_time_validation", ["return build_time_validation.ENABLED"])].
+(* every statement of neuroml/__init__.py that binds the name build_time_validation *)
+Definition modelled_switch_binding : list string := ["from . import build_time_validation"].
+(* every other mention of ENABLED / build_time_validation in the package (file: use), sorted *)
+Definition modelled_switch_uses : list string :=
+  ["neuroml/nml/generatedssupersuper.py: import neuroml.build_time_validation";
+   "neuroml/nml/generatedssupersuper.py: read neuroml.build_time_validation.ENABLED"].
+Definition switch_plain_globalb (module : list string) (helpers : list (string * list string)) (binding uses : list string) : bool :=
+  strl_eqb module modelled_switch_module && named_strl_eqb helpers modelled_switch_helpers
+  && strl_eqb binding modelled_switch_binding && strl_eqb uses modelled_switch_uses.
+
+(* a history of switch operations issued from several threads: the thread plays no role in the model (one cell).  ts_seen is
+   what the threads alive after the operation (the main thread, every pool worker, a thread started just now) observe. *)
+Record tstep := { ts_thread : nat; ts_op : option sw_op; ts_seen : list (nat * bool) }.   (* None: a factory/add call *)
+Definition sw_next (st : bool) (o : option sw_op) : bool := match o with Some x => sw_apply st x | None => st end.
+Fixpoint trace_ops (l : list tstep) : list sw_op :=
+  match l with [] => [] | s :: r => match ts_op s with Some x => x :: trace_ops r | None => trace_ops r end end.
+Fixpoint switch_trace_mismatches (st : bool) (i : nat) (l : list tstep) : list nat :=
+  match l with
+  | [] => []
+  | s :: r => let st' := sw_next st (ts_op s) in
+              let rest := switch_trace_mismatches st' (S i) r in
+              if forallb (fun tv => Bool.eqb (snd tv) st') (ts_seen s) then rest else i :: rest
+  end.
+
 (* one member of one class against the schema: type and list nature as declared (effective occurrence), the
    required flag as the declaration itself says (use / own minOccurs), which outside an xs:choice is also the
    effective requirement *)
